@@ -74,6 +74,13 @@ def jobs(tier):
                             "_dbus_header_set_field_basic / _dbus_header_get_field_raw = ghost SIGNATURE and UNIX_FDS fields, may fail", "_dbus_dup / _dbus_close = ghost descriptor table with identities", "dbus_realloc = fresh block, may fail"],
                      bounds="message already holding 0..3 descriptors (array absent or of 4), body 0..200 bytes, signature absent or 1..40 codes; every combination of the 7 fallible steps failing",
                      shape=f"append one {nm} to a message under faults"))
+    # copying a message: every fallible step of dbus_message_copy, dup() of the j-th descriptor included
+    for n in (0, 1, 2, 3):
+        J.append(Job(name=f"copy.fds{n}", group="C14.copy", harness="harness/C14_copy.c", defines={"NFDS": n}, env=["assert_stubs.c"], checks="assert", unwind=18, timeout=300,
+                     encodes=["dbus_message_copy", "close_unix_fds"],
+                     stubs=["DBusString / DBusHeader = length-only ghosts with init/free balance counters, each step may fail", "_dbus_dup / _dbus_close = ghost descriptor table with identities; the j-th dup fails (j symbolic)", "dbus_malloc / dbus_malloc0 = may fail, balance counted"],
+                     bounds=f"original with {n} descriptor(s), header 16..4096 and body 0..4096 bytes (lengths only); every combination of the 5 allocation steps failing and any one dup failing",
+                     shape=f"copy of a message with {n} descriptor(s) under faults"))
     # Hello as a whole under OOM: the C03 Hello skeleton with the atomicity obligation switched on (known finding F18)
     sp3 = importlib.util.spec_from_file_location("vfjobs_x_C03", os.path.join(os.path.dirname(__file__), "C03.py")); m3 = importlib.util.module_from_spec(sp3); m3.Job = Job; sp3.loader.exec_module(m3)
     for j in m3.jobs(tier):
